@@ -12,6 +12,7 @@ import (
 
 	"verif/internal/ev"
 	"verif/internal/gen"
+	"verif/internal/refcodec"
 )
 
 // "relay": the holder of a kept message builds ANOTHER message out of parts of it - "all AVPs but
@@ -138,6 +139,12 @@ func avpLists(avps []*diam.AVP, out [][]*diam.AVP) [][]*diam.AVP {
 func relayKept(r *retained, dictName string, p *dict.Parser, step int) *ev.Failure {
 	shapes := shapesFor(dictName)
 	big := len(r.ref) > 4096
+	grpCode := uint32(260)
+	if dictName != "default" {
+		if a, err := p.FindAVP(0, relayGenerated.grp); err == nil {
+			grpCode = a.Code
+		}
+	}
 	for _, list := range avpLists(r.m.AVP, nil) {
 		n := len(list)
 		orig := append([]*diam.AVP(nil), list...)
@@ -200,7 +207,40 @@ func relayKept(r *retained, dictName string, p *dict.Parser, step int) *ev.Failu
 				if f := changed("with AddAVP / InsertAVP / NewAVP", i, j); f != nil {
 					return f
 				}
+				// the window as the member list of a group of the relay's own
+				fwd = diam.NewMessage(r.m.Header.CommandCode, r.m.Header.CommandFlags, 0, 7, 8, p)
+				g := &diam.GroupedAVP{AVP: list[i:j]}
+				if (i+j)%2 == 0 {
+					fwd.NewAVP(grpCode, 0x40, 0, g)
+				} else {
+					fwd.AddAVP(diam.NewAVP(grpCode, 0x40, 0, g))
+				}
+				fwd.NewAVP(264, 0x40, 0, datatype.DiameterIdentity("relay.example"))
+				if !big || i == 0 {
+					var w bytes.Buffer
+					fwd.WriteTo(&w)
+				}
+				if f := changed("with NewAVP of a GroupedAVP whose member list is the window", i, j); f != nil {
+					return f
+				}
 			}
+		}
+		// the VALUES of the kept AVPs (kept.AVP[k].Data: plain values and whole groups) handed to
+		// Message.NewAVP / diam.NewAVP for another message, the usual way of passing an AVP on
+		fwd := diam.NewMessage(r.m.Header.CommandCode, r.m.Header.CommandFlags, 0, 7, 8, p)
+		for _, x := range list {
+			if x == nil || x.Data == nil {
+				continue
+			}
+			fwd.NewAVP(x.Code, x.Flags, x.VendorID, x.Data)
+			fwd.AddAVP(diam.NewAVP(x.Code, x.Flags&^0x80, 0, x.Data))
+			fwd.InsertAVP(diam.NewAVP(x.Code, x.Flags, 10415, x.Data))
+			fwd.NewAVP(grpCode, 0x40, 0, &diam.GroupedAVP{AVP: []*diam.AVP{diam.NewAVP(x.Code, x.Flags, x.VendorID, x.Data)}})
+		}
+		var w bytes.Buffer
+		fwd.WriteTo(&w)
+		if f := changed("with NewAVP of the values (Data) of its AVPs", 0, n); f != nil {
+			return f
 		}
 	}
 	return nil
@@ -299,6 +339,66 @@ func TestC06RelayWindows(t *testing.T) {
 						if !yield(c) {
 							return
 						}
+					}
+				}
+			}
+		}
+	})
+}
+
+// Kept messages whose AVPs - at top level, inside a group, inside a group in a group - have a
+// declared length that is not the one the library would produce for the value (an IPv4-mapped
+// address under family 2, fixed-width values of other widths, IPv4 / IPv6 AVPs of other lengths),
+// and application-id AVPs as a sloppy peer sends them (no M bit, inside a Vendor-Specific-
+// Application-Id without M bit): each is relayed (windows, values handed to NewAVP), searched and
+// advertised upstream through an sm.Client, then other content is read. The kept message must keep
+// every decoded field (code, flags, Length, vendor id, value).
+func TestC06RelayOddGroups(t *testing.T) {
+	f := gen.FixedCodecDict()
+	generated := gen.DictChoice{Name: "generated", Gen: &f}
+	_, cat, err := generated.Load()
+	if err != nil {
+		t.Fatalf("harness: %v", err)
+	}
+	code := func(typ string) uint32 { return cat.EntriesFor(0, typ)[0].Code }
+	mapped := refcodec.Address(2, []byte{0, 0, 0, 0, 0, 0, 0, 0, 0, 0, 0xff, 0xff, 10, 1, 2, 3})
+	leaf := func(c uint32, flags uint8, payload []byte) *refcodec.Node {
+		return &refcodec.Node{Code: c, Flags: flags, Payload: payload}
+	}
+	group := func(c uint32, flags uint8, kids ...*refcodec.Node) *refcodec.Node {
+		return &refcodec.Node{Code: c, Flags: flags, Group: true, Children: kids}
+	}
+	wide := []byte{0, 0, 0, 0, 0, 0, 0, 7}
+	type variant struct {
+		dc   gen.DictChoice
+		code uint32
+		msgs [][]*refcodec.Node
+	}
+	g4, g6, gg := code(gen.TIPv4), code(gen.TIPv6), code(gen.TGrouped)
+	variants := []variant{
+		{dc: gen.DictChoice{Name: "default"}, code: 257, msgs: [][]*refcodec.Node{
+			{leaf(268, 0x40, refcodec.U32(5004)), leaf(264, 0x40, []byte("srv")), group(279, 0x40, leaf(257, 0x40, mapped), leaf(278, 0x40, wide))},
+			{group(279, 0x40, leaf(278, 0x40, []byte{1, 2}), group(279, 0x40, leaf(55, 0x40, wide), leaf(257, 0x40, mapped), leaf(278, 0x40, nil))), leaf(278, 0x40, wide)},
+			{leaf(264, 0x40, []byte("peer")), leaf(258, 0, refcodec.U32(4)), leaf(259, 0, refcodec.U32(3)), leaf(258, 0x20, refcodec.U32(4)), leaf(258, 0x40, refcodec.U32(4))},
+			{leaf(264, 0x40, []byte("peer")), group(260, 0, leaf(266, 0, refcodec.U32(10415)), leaf(258, 0, refcodec.U32(4))), group(260, 0x40, leaf(266, 0x40, refcodec.U32(10415)), leaf(259, 0, refcodec.U32(3)))},
+			{group(260, 0, leaf(266, 0, wide), leaf(258, 0, wide)), leaf(258, 0, wide), leaf(259, 0x40, refcodec.U32(3))},
+		}},
+		{dc: generated, code: 300, msgs: [][]*refcodec.Node{
+			{leaf(g4, 0x40, make([]byte, 7)), group(gg, 0x40, leaf(g4, 0x40, make([]byte, 5)), leaf(g6, 0x40, make([]byte, 3)))},
+			{group(gg, 0x40, group(150, 0x40, leaf(g6, 0x40, make([]byte, 17)), leaf(g4, 0x40, nil)), leaf(g4, 0x40, make([]byte, 16))), leaf(g6, 0x40, make([]byte, 4))},
+			{leaf(258, 0, refcodec.U32(4)), group(260, 0, leaf(266, 0, refcodec.U32(10415)), leaf(258, 0, refcodec.U32(4))), leaf(g4, 0x40, make([]byte, 2))},
+		}},
+	}
+	prop.Enumerate(t, false, func(yield func(Case) bool) {
+		for _, v := range variants {
+			plain := gen.Msg{Flags: 0x80, Code: v.code, HbH: 13, E2E: 14}
+			for k, nodes := range v.msgs {
+				odd := refcodec.EncodeMessage(refcodec.Header{Version: 1, Flags: 0x80, Code: v.code, HopByHop: 11, EndToEnd: uint32(k)}, nodes, false)
+				for _, use := range []string{"relay", "advertise", "find-append", "echo", "marshal-echo"} {
+					c := Case{Dict: v.dc, Steps: []Step{{Kind: "retain-odd", Msg: plain, Odd: odd}, {Kind: use, Msg: plain}, {Kind: "read", Msg: plain},
+						{Kind: "retain-odd", Msg: plain, Odd: odd}, {Kind: use, Msg: plain}, {Kind: "advertise", Msg: plain}, {Kind: "relay", Msg: plain}}}
+					if !yield(c) {
+						return
 					}
 				}
 			}
